@@ -85,26 +85,118 @@ def usesShutdown : Fut → Bool
   | .select a b | .seq a b => usesShutdown a || usesShutdown b
   | _ => false
 
-/-- model-free expectation for a plain line, given the task's clock; `none` = not a plain line -/
-def plainLine (clock : Nat) : Fut → Option (Nat × List String)
-  | .nop => some (clock, [])
-  | .sleep d => some (clock + d, [s!"0.s@{clock + d}"])
-  | .until_ t => if t ≥ tMax then none else let c := max clock t; some (c, [s!"0.s@{c}"])
+/-! ### model-free sequential specification
+
+Straight-line tasks (no `select`, no nested futures except `timeout D sleep D2`) have an obvious
+meaning that needs neither the queue nor the wake-up machinery: the task has a clock; `sleep D`
+advances it by `D`; awaiting a deadline moves it to max(clock, deadline); a named `Sleep` is just
+its deadline; an `Interval` is its next deadline, re-armed per `MissedTickBehavior`; a module with
+a single `restart` / `halt` line runs until the instant the request is made and (for `restart D`)
+once more from `D` later.  Deviations of the implementation from this are `kind=reject`. -/
+
+inductive SNamed
+  | sl (dl : Nat)
+  | iv (dl p : Nat) (m : Missed)
+
+structure SpecSt where
+  clock : Nat
+  named : List (String × SNamed) := []
+  /-- first shutdown request: (time, restart delay) -/
+  shut : Option (Nat × Option Nat) := none
+
+def sGet (st : SpecSt) (x : String) : Option SNamed := (st.named.find? (·.1 == x)).map (·.2)
+def sSet (st : SpecSt) (x : String) (v : SNamed) : SpecSt :=
+  { st with named := (x, v) :: st.named.filter (·.1 != x) }
+
+/-- one plain line: new state and (kind, time) observations; `none` = not a plain line -/
+def specLine (inc : Nat) (st : SpecSt) : Fut → Option (SpecSt × List (String × Nat))
+  | .nop => some (st, [])
+  | .sleep d => let c := st.clock + d; some ({ st with clock := c }, [("s", c)])
+  | .until_ t => if t ≥ tMax then none else
+      let c := max st.clock t; some ({ st with clock := c }, [("s", c)])
   | .timeout d (.sleep d2) =>
-    if d2 ≤ d then some (clock + d2, [s!"0.s@{clock + d2}", s!"0.ok@{clock + d2}"])
-    else some (clock + d, [s!"0.el@{clock + d}"])
+    if d2 ≤ d then let c := st.clock + d2; some ({ st with clock := c }, [("s", c), ("ok", c)])
+    else let c := st.clock + d; some ({ st with clock := c }, [("el", c)])
+  | .new x d => some (sSet st x (.sl (st.clock + d)), [])
+  | .newu x t => some (sSet st x (.sl t), [])
+  | .pollOnce x =>
+    match sGet st x with
+    | some (.sl dl) => some (st, [(if dl ≤ st.clock then "rdy" else "pnd", st.clock)])
+    | _ => some (st, [("mis", st.clock)])
+  | .reset x d =>
+    match sGet st x with
+    | some (.sl _) => some (sSet st x (.sl (st.clock + d)), [])
+    | _ => some (st, [])
+  | .resetu x t =>
+    match sGet st x with
+    | some (.sl _) => some (sSet st x (.sl t), [])
+    | _ => some (st, [])
+  | .drop x => some ({ st with named := st.named.filter (·.1 != x) }, [])
+  | .await x =>
+    match sGet st x with
+    | some (.sl dl) => if dl ≥ tMax then none else
+        let c := max st.clock dl; some ({ st with clock := c }, [("a", c)])
+    | _ => some (st, [("mis", st.clock)])
+  | .inew x p m d => some (sSet st x (.iv (st.clock + d) p m), [])
+  | .tick x =>
+    match sGet st x with
+    | some (.iv dl p m) =>
+      let c := max st.clock dl
+      let nxt := (Interval.mk { id := 0, deadline := dl } p m).nextDeadline dl c
+      some (sSet { st with clock := c } x (.iv nxt p m), [("k" ++ toString dl, c)])
+    | _ => some (st, [("mis", st.clock)])
+  | .ireset x =>
+    match sGet st x with
+    | some (.iv _ p m) => some (sSet st x (.iv (st.clock + p) p m), [])
+    | _ => some (st, [])
+  | .restart d =>
+    if inc = 0 && st.shut.isNone then some ({ st with shut := some (st.clock, some d) }, []) else some (st, [])
+  | .halt => if st.shut.isNone then some ({ st with shut := some (st.clock, none) }, []) else some (st, [])
   | _ => none
 
-/-- expected observations of a plain task: list of (line idx, tokens); `none` if not plain -/
-def plainTask (clock : Nat) : List (Nat × Fut) → Option (Nat × List (Nat × List String))
-  | [] => some (clock, [])
+/-- a plain task: (line idx, kind, time) observations, end clock, shutdown request -/
+def specTask (inc : Nat) (st : SpecSt) : List (Nat × Fut) → Option (SpecSt × List (Nat × String × Nat))
+  | [] => some (st, [])
   | (i, f) :: rest =>
-    match plainLine clock f with
+    match specLine inc st f with
     | none => none
-    | some (c, toks) =>
-      match plainTask c rest with
+    | some (st1, obs) =>
+      match specTask inc st1 rest with
       | none => none
-      | some (c', r) => some (c', (i, toks) :: r)
+      | some (st2, r) => some (st2, obs.map (fun (k, t) => (i, k, t)) ++ r)
+
+/-- expected tokens per line for the plain tasks of a module with at most one shutdown line
+    (which must be in a plain task): (line idx, token) for every line of every plain task, the list
+    of checked line indices, the end clock of the plain tasks, and whether *all* tasks are plain and
+    nothing shuts down -/
+def specModule (tasks : List (List (Nat × Fut))) : Option (List (Nat × String) × List Nat × Nat × Bool) := do
+  let shutLines := (tasks.map fun t => (t.filter fun (_, f) => usesShutdown f).length).foldl (· + ·) 0
+  if shutLines > 1 then none
+  let runs0 := tasks.map fun t => (t, specTask 0 { clock := 0 } t)
+  -- the task that requests the shutdown must be plain
+  if shutLines == 1 && !(runs0.any fun (t, r) => t.any (fun (_, f) => usesShutdown f) && r.isSome) then none
+  let plain0 := runs0.filterMap fun (t, r) => r.map fun r => (t, r)
+  let req := (plain0.filterMap (·.2.1.shut)).head?
+  let fmt (inc : Nat) (o : Nat × String × Nat) : Nat × String := (o.1, s!"{inc}.{o.2.1}@{o.2.2}")
+  let checked := plain0.flatMap fun (t, _) => t.map (·.1)
+  let allPlain := plain0.length == tasks.length && shutLines == 0
+  match req with
+  | none =>
+    let toks := (plain0.flatMap (·.2.2)).map (fmt 0)
+    some (toks, checked, (plain0.map (·.2.1.clock)).foldl max 0, allPlain)
+  | some (tq, restart) =>
+    let toks0 := ((plain0.flatMap (·.2.2)).filter (fun o => o.2.2 ≤ tq)).map (fmt 0)
+    match restart with
+    | none => some (toks0, checked, tq, false)
+    | some d =>
+      let runs1 := plain0.filterMap fun (t, _) => specTask 1 { clock := tq + d } t
+      let toks1 := (runs1.flatMap (·.2)).map (fmt 1)
+      some (toks0 ++ toks1, checked, tq + d, false)
+
+def usesNamed : Fut → Bool
+  | .new .. | .newu .. | .pollOnce _ | .reset .. | .resetu .. | .drop _ | .await _
+  | .inew .. | .tick _ | .ireset _ => true
+  | _ => false
 
 def joinSp (l : List String) : String := if l.isEmpty then "-" else " ".intercalate l
 
@@ -135,22 +227,27 @@ def runCase (c : Case) : String := Id.run do
   let mut progs : Array (List (String × List (Nat × Fut))) := Array.replicate nmods []
   for l in lines do progs := addLine progs l
   let progsL : List (List (List (Nat × Fut))) := progs.toList.map fun tasks => tasks.map (·.2)
-  -- (A) model-free acceptance of plain tasks
+  -- (S) only plain script terms
+  for l in lines do
+    if !l.fut.isSrc then return s!"fail {id} op={l.idx} kind=badline detail=not-a-source-term"
+  -- (A) model-free acceptance of modules made of plain tasks
   let mut allPlain := true
   let mut specEnd := 0
+  let mut specLines := 0
   for tasks in progsL do
-    let shut := tasks.any fun t => t.any fun (_, f) => usesShutdown f
-    for t in tasks do
-      match (if shut then none else plainTask 0 t) with
-      | none => allPlain := false
-      | some (e, exp) =>
-        specEnd := max specEnd e
-        for (li, toks) in exp do
-          match lines.find? (·.idx == li) with
-          | some l =>
-            if l.impl != toks then
-              return s!"fail {id} op={li} kind=reject clause=deadline line=[{l.text}] spec={joinSp toks} impl={joinSp l.impl}"
-          | none => pure ()
+    match specModule tasks with
+    | none => allPlain := false
+    | some (exp, checked, e, simple) =>
+      specEnd := max specEnd e
+      if !simple || tasks.any (fun t => t.any fun (_, f) => usesNamed f) then allPlain := false
+      for li in checked do
+        specLines := specLines + 1
+        match lines.find? (·.idx == li) with
+        | some l =>
+          let toks := (exp.filter (·.1 == li)).map (·.2)
+          if l.impl != toks then
+            return s!"fail {id} op={li} kind=reject clause=deadline line=[{l.text}] spec={joinSp toks} impl={joinSp l.impl}"
+        | none => pure ()
   -- (T) the model run
   match Sim.run next progsL with
   | none => return s!"fail {id} op=0 kind=internal detail=model-fuel-exhausted"
@@ -192,8 +289,11 @@ def runCase (c : Case) : String := Id.run do
     let el := (slog.filter (·.kind == "el")).length
     let ticks := (slog.filter (·.kind.startsWith "k")).length
     let unf := munf.foldl (· + ·) 0
+    let sum (f : Mod → Nat) : Nat := (s.mods.map f).foldl (· + ·) 0
+    let lateticks := (slog.filter fun o => o.kind.startsWith "k" && (match o.due with | some d => d < o.time | none => false)).length
+    let own := (slog.filter (·.own)).length
     let nt := ef > 0 && fired ≥ 2
-    return s!"ok {id} nt={if nt then 1 else 0} events={s.events} fired={fired} emptyfront={ef} ties={ties} restarts={restarts} elapsed={el} ticks={ticks} unfinished={unf} obs={slog.length}"
+    return s!"ok {id} nt={if nt then 1 else 0} events={s.events} fired={fired} emptyfront={ef} ties={ties} restarts={restarts} elapsed={el} ticks={ticks} unfinished={unf} obs={slog.length} crowd={sum (·.crowd)} resetlater={sum (·.resetLater)} resetearlier={sum (·.resetEarlier)} dropreg={sum (·.dropReg)} stalewake={sum (·.staleWake)} staleinc={sum (·.staleInc)} wakeinactive={sum (·.wakeInactive)} lateticks={lateticks} owncompl={own} speclines={specLines}"
 
 def main (stdin : IO.FS.Stream) : IO Unit := do
   let cases ← readCases stdin
